@@ -75,11 +75,12 @@ def is_primary_append(ctx, f: Func, c: ast.Call) -> bool:
 
 
 def rewrite_loops(ctx, f: Func) -> List[ast.For]:
-    out = []
-    for lp in storage_loops(ctx, f):
-        if any(isinstance(n, ast.Call) and is_temp_append(ctx, f, n) for n in walk_local(lp)):
-            out.append(lp)
-    return out
+    """Loops over storage in a function that stages rows in temporary storage
+    (every such loop must conserve rows, also one whose appends were lost)."""
+    loops = storage_loops(ctx, f)
+    if any(isinstance(n, ast.Call) and is_temp_append(ctx, f, n) for n in walk_local(f.node)):
+        return loops
+    return []
 
 
 class Event:
